@@ -1105,7 +1105,8 @@ lyd_insert_sibling(struct lyd_node *sibling, struct lyd_node *node, struct lyd_n
     LY_CHECK_ARG_RET(NULL, node, sibling != node, LY_EINVAL);
 
     if (sibling) {
-        LY_CHECK_RET(lyd_insert_check_schema(NULL, sibling->schema, node->schema));
+        LY_CHECK_RET(lyd_insert_check_schema(lyd_parent(sibling) ? lyd_parent(sibling)->schema : NULL, sibling->schema,
+                node->schema));
     }
 
     first_sibling = lyd_first_sibling(sibling);
@@ -1135,7 +1136,8 @@ lyd_insert_before(struct lyd_node *sibling, struct lyd_node *node)
     LY_CHECK_ARG_RET(NULL, sibling, node, sibling != node, LY_EINVAL);
     LY_CHECK_CTX_EQUAL_RET(LYD_CTX(sibling), LYD_CTX(node), LY_EINVAL);
 
-    LY_CHECK_RET(lyd_insert_check_schema(NULL, sibling->schema, node->schema));
+    LY_CHECK_RET(lyd_insert_check_schema(lyd_parent(sibling) ? lyd_parent(sibling)->schema : NULL, sibling->schema,
+            node->schema));
 
     if (node->schema && (!(node->schema->nodetype & (LYS_LIST | LYS_LEAFLIST)) || !(node->schema->flags & LYS_ORDBY_USER))) {
         LOGERR(LYD_CTX(sibling), LY_EINVAL, "Can be used only for user-ordered nodes.");
@@ -1160,7 +1162,8 @@ lyd_insert_after(struct lyd_node *sibling, struct lyd_node *node)
     LY_CHECK_ARG_RET(NULL, sibling, node, sibling != node, LY_EINVAL);
     LY_CHECK_CTX_EQUAL_RET(LYD_CTX(sibling), LYD_CTX(node), LY_EINVAL);
 
-    LY_CHECK_RET(lyd_insert_check_schema(NULL, sibling->schema, node->schema));
+    LY_CHECK_RET(lyd_insert_check_schema(lyd_parent(sibling) ? lyd_parent(sibling)->schema : NULL, sibling->schema,
+            node->schema));
 
     if (node->schema && (!(node->schema->nodetype & (LYS_LIST | LYS_LEAFLIST)) || !(node->schema->flags & LYS_ORDBY_USER))) {
         LOGERR(LYD_CTX(sibling), LY_EINVAL, "Can be used only for user-ordered nodes.");
